@@ -203,7 +203,7 @@ Example C24_level_nonvacuous :
   /\ steps d_g (depends true d_g) (base_files d_g [s "p/x.c"]) 2 4%N /\ within 2 2 /\ ~ within 1 2
   /\ changes d_g [s "p/x.c"] 0 false = Some [0%N]
   /\ changes d_g [s "p/x.c"] 1 false = Some [0; 1; 3]%N
-  /\ changes d_g [s "p/x.c"] 2 false = Some [0; 2; 1; 4; 3]%N
+  /\ changes d_g [s "p/x.c"] 2 false = Some [0; 1; 3; 2; 4]%N
   /\ changes d_g [s "p/x.c"] (-2) false = Some [0%N]
   /\ bfs_pops d_g false 2 9 (init_state [0%N]) = [(0%N, 0%Z); (1%N, 1%Z); (3%N, 1%Z); (2%N, 2%Z); (4%N, 2%Z)]
   /\ bfs_pops d_g false (-1) 9 (init_state [0%N]) = [(0%N, 0%Z); (1%N, 1%Z); (3%N, 1%Z); (2%N, 2%Z); (4%N, 2%Z)].
